@@ -120,13 +120,28 @@ def validate_traces(ctx, graphs, runs, tag):
     """TLC trace validation; returns list of bad records (dict) and number accepted."""
     if not runs:
         return [], 0
-    path = os.path.join(ctx.workdir, f"trace_{tag}.json")
-    json.dump({"graphs": graphs, "runs": runs}, open(path, "w"))
-    r = ctx.tlc("Dataflow_Trace", env={"VERIF_IN": path}, timeout=3000)
-    if not r.ok:
-        raise lib.Machinery(f"Dataflow_Trace failed ({tag}):\n{r.error}")
-    bad = [p for p in r.printed if "bad" in p or "wrong" in p]
-    acc = {p["run"] for p in r.printed if "accepted" in p}
+    bad, acc = [], set()
+    CH = 600
+    for start in range(0, len(runs), CH):
+        part = runs[start:start + CH]
+        used = sorted({r_["graph"] for r_ in part})
+        remap = {g: i + 1 for i, g in enumerate(used)}
+        path = os.path.join(ctx.workdir, f"trace_{tag}_{start}.json")
+        json.dump({"graphs": [graphs[g - 1] for g in used], "runs": [dict(r_, graph=remap[r_["graph"]]) for r_ in part]},
+                  open(path, "w"))
+        r = ctx.tlc("Dataflow_Trace", env={"VERIF_IN": path}, timeout=3000)
+        os.remove(path)
+        if not r.ok:
+            raise lib.Machinery(f"Dataflow_Trace failed ({tag}):\n{r.error}")
+        for p in r.printed:
+            if "run" in p:
+                p["run"] += start
+            if "graph" in p and "wrong" in p:
+                p["graph"] = used[p["graph"] - 1]
+            if "bad" in p or "wrong" in p:
+                bad.append(p)
+            elif "accepted" in p:
+                acc.add(p["run"])
     stuck = [i + 1 for i in range(len(runs)) if (i + 1) not in acc and not any(b.get("run") == i + 1 for b in bad)]
     for i in stuck:
         bad.append({"run": i, "bad": "trace not consumed to its end"})
